@@ -81,17 +81,17 @@ pub fn run_c07(ctx: &mut Ctx) {
         if p.rich_app {
             ctx.count("c07.clients-with-prepopulated-attribute-lists");
         }
-        if case % 16 == 5 {
+        if case % 32 == 5 {
             // many requests in flight at once, most of them answered badly, on a client whose
             // outstanding-request limit was raised above the default (seeded change C07-A7: a bound on
             // the number of protection-violated markers)
             cfg.reliable = None;
-            cfg.max_transactions = *rng.pick(&[16usize, 24, 40]);
-            p = Profile { steps: (150, 300), max_concurrent: cfg.max_transactions, fault_pm: 850, silence_pm: 60, w_send: 45, w_deliver: 30, w_fire: 18, w_probe: 2, ..p };
+            cfg.max_transactions = *rng.pick(&[16usize, 24]);
+            p = Profile { steps: (120, 260), max_concurrent: cfg.max_transactions, fault_pm: 850, silence_pm: 60, w_send: 45, w_deliver: 30, w_fire: 18, w_probe: 2, ..p };
             ctx.count("c07.clients-with-raised-limit");
         }
         if let Some(sim) = run_walk(ctx, rng, cfg, &p, &[]) {
-            if case % 16 == 5 {
+            if case % 32 == 5 {
                 ctx.count_n("c07.raised-limit.requests", sim.txs.len() as u64);
             }
             sample_history(ctx, &sim, case);
